@@ -1,3 +1,4 @@
+import RedoModel.Props.C05c
 import RedoModel.Props.C05a
 import RedoModel.Props.C05b
 /-! # C05 — the property theorems are in `C05a.lean` (one-step mechanisms) and `C05b.lean` (whole
